@@ -48,7 +48,6 @@ structure J (U : List Msg) (k K : Nat) (c : Cluster) : Prop where
   value : ∀ i s, c.nodes[i]? = some s →
     (NMap.get s.keys k).map RV.strip = foldOpt (absorbed c i k)
   log_sent : ∀ a ∈ c.log, ∃ m ∈ c.sent, m.key = a.key ∧ m.val = a.val
-  sent_log : ∀ m ∈ c.sent, (⟨m.origin, m.key, m.val⟩ : Absorbed) ∈ c.log
   sub : ∀ m ∈ c.sent, m ∈ U
 
 theorem absorbed_append (c : Cluster) (a : Absorbed) (i k : Nat) (log' : List Absorbed)
@@ -121,7 +120,6 @@ theorem J_init (U : List Msg) (k K n : Nat) (causal : Bool) : J U k K (init n ca
       subst hs
       simp [Shard.init, absorbed, foldOpt, init]
   log_sent := by intro a ha; cases ha
-  sent_log := by intro m hm; cases hm
   sub := by intro m hm; cases hm
 
 theorem mem_set {α : Type} {l : List α} {i : Nat} {x y : α} (h : y ∈ l.set i x) :
@@ -157,7 +155,7 @@ theorem J_step_loc_gen {U : List Msg} {k K : Nat} {c : Cluster} (hj : J U k K c)
       have hstep : c.step (.loc i op) = { c with nodes := c.nodes.set i s } := by
         simp only [step, hs, hd, hsame]
       rw [hstep]
-      refine ⟨?_, hj.sent_ok, ?_, hj.log_sent, hj.sent_log, hj.sub⟩
+      refine ⟨?_, hj.sent_ok, ?_, hj.log_sent, hj.sub⟩
       · intro s' hs'
         rcases mem_set hs' with h | h
         · subst h; exact hj.nodes_inv _ hsmem
@@ -182,7 +180,7 @@ theorem J_step_loc_gen {U : List Msg} {k K : Nat} {c : Cluster} (hj : J U k K c)
       have hget := Shard.local_get s op d hd
       have hdmem := NMap.mem_of_get hget
       have hdU : (⟨i, op.key, d⟩ : Msg) ∈ U := hsub _ (by simp)
-      refine ⟨?_, ?_, ?_, ?_, ?_, hsub⟩
+      refine ⟨?_, ?_, ?_, ?_, hsub⟩
       · intro s' hs'
         rcases mem_set hs' with h | h
         · subst h; exact hnode'
@@ -237,12 +235,6 @@ theorem J_step_loc_gen {U : List Msg} {k K : Nat} {c : Cluster} (hj : J U k K c)
         · simp only [List.mem_singleton] at h
           subst h
           exact ⟨⟨i, op.key, d⟩, by simp, rfl, rfl⟩
-      · intro m hm
-        rcases List.mem_append.mp hm with h | h
-        · exact List.mem_append_left _ (hj.sent_log m h)
-        · simp only [List.mem_singleton] at h
-          subst h
-          simp
 
 theorem J_step_loc {U : List Msg} {k K : Nat} {c : Cluster} (hc : Compat U k K) (hj : J U k K c)
     (i : Nat) (op : LOp) (hsub : ∀ m ∈ (c.step (.loc i op)).sent, m ∈ U) :
@@ -270,19 +262,17 @@ theorem J_step_deliver {U : List Msg} {k K : Nat} {c : Cluster} (hj : J U k K c)
     cases hm : c.sent[idx]? with
     | none => simp only [step, hs, hm]; exact hj
     | some m =>
-      by_cases ho : m.origin = j
-      · simp only [step, hs, hm, ho, if_true]; exact hj
       · have hstep : c.step (.deliver j idx) =
             { c with
               nodes := c.nodes.set j (Shard.applyRemote s m.key m.val)
               log := c.log ++ [⟨j, m.key, m.val⟩] } := by
-          simp only [step, hs, hm, ho, if_false]
+          simp only [step, hs, hm]
         rw [hstep]
         have hsmem : s ∈ c.nodes := List.mem_of_getElem? hs
         have hmmem : m ∈ c.sent := List.mem_of_getElem? hm
         have ⟨hinv, hinv2, hnwf, hrid⟩ := hj.nodes_inv s hsmem
         have ⟨hmd, hmw⟩ := hj.sent_ok m hmmem
-        refine ⟨?_, hj.sent_ok, ?_, ?_, ?_, hj.sub⟩
+        refine ⟨?_, hj.sent_ok, ?_, ?_, hj.sub⟩
         · intro s' hs'
           rcases mem_set hs' with h | h
           · subst h
@@ -328,8 +318,6 @@ theorem J_step_deliver {U : List Msg} {k K : Nat} {c : Cluster} (hj : J U k K c)
           · simp only [List.mem_singleton] at h
             subst h
             exact ⟨m, hmmem, rfl, rfl⟩
-        · intro m' hm'
-          exact List.mem_append_left _ (hj.sent_log m' hm')
 
 theorem sent_mono_step (c : Cluster) (e : Ev) : ∀ m ∈ c.sent, m ∈ (c.step e).sent := by
   intro m hm
@@ -344,7 +332,7 @@ theorem sent_mono_step (c : Cluster) (e : Ev) : ∀ m ∈ c.sent, m ∈ (c.step 
   | deliver j idx =>
     simp only [step]
     split
-    · split <;> exact hm
+    · exact hm
     · exact hm
 
 theorem sent_mono_run (c : Cluster) (evs : List Ev) : ∀ m ∈ c.sent, m ∈ (c.run evs).sent := by
@@ -365,6 +353,37 @@ theorem J_run {U : List Msg} {k K : Nat} (hc : Compat U k K) (c : Cluster) (evs 
     cases e with
     | loc i op => exact J_step_loc hc hj i op hsub'
     | deliver j idx => exact J_step_deliver hj j idx
+
+/-- a node has absorbed every delta it issued itself (true of every restart-free execution; a
+    node that restarts with an empty state has to get its own deltas back like anybody else's) -/
+def SentLog (c : Cluster) : Prop := ∀ m ∈ c.sent, (⟨m.origin, m.key, m.val⟩ : Absorbed) ∈ c.log
+
+theorem sentLog_step {c : Cluster} (h : SentLog c) (e : Ev) : SentLog (c.step e) := by
+  cases e with
+  | loc i op =>
+    simp only [step]
+    split
+    · exact h
+    · split
+      · intro m hm
+        rcases List.mem_append.mp hm with hm | hm
+        · exact List.mem_append_left _ (h m hm)
+        · simp only [List.mem_singleton] at hm
+          subst hm; simp
+      · exact h
+  | deliver j idx =>
+    simp only [step]
+    split
+    · intro m hm; exact List.mem_append_left _ (h m hm)
+    · exact h
+
+theorem sentLog_run (c : Cluster) (evs : List Ev) (h : SentLog c) : SentLog (c.run evs) := by
+  induction evs generalizing c with
+  | nil => exact h
+  | cons e evs ih => exact ih (c.step e) (sentLog_step h e)
+
+theorem sentLog_init (n : Nat) (causal : Bool) : SentLog (init n causal) := by
+  intro m hm; cases hm
 
 end Cluster
 end RedisVerif
